@@ -51,6 +51,12 @@ CLAIMS = {
  'C16': dict(tech='panic-safety typestate (Rudra-style) over CFGs with TermFlow-classified commit/hole operations and a transitive may-call-user summary',
    text='Decides, for every function of the collections, Box and the arena fill/initialiser methods and for every site where user code may run and unwind (269 sites on the reference tree): no length or cursor has been advanced without an initialised/processed slot behind it, the slot being destroyed is already outside the length, and no moved-out or duplicated slot is exposed unless the length was zeroed first or a guard whose Drop restores the length covers it. These ordering facts are necessary conditions for no-double-drop / valid-UTF-8 after unwinding; they hold per loop iteration for all inputs. The full crash-point x follow-up enumeration is not performed, and guards are trusted to compute their length from fields that obey the ordering.',
    ref='DESIGN.md section 4 C16'),
+ 'C15': dict(tech='drop-elaboration inventory on MIR (Drop terminators) + panic-safety typestate evaluated at normal returns + dominance rules',
+   text='Decides destructor-responsibility pairing: every function that takes a container by value and lets its contents flow into the result has no Drop of that argument on a normal path (forgotten, ManuallyDrop or moved); every function that moves out, drops or duplicates a buffer slot commits a length/cursor change before it returns normally (so the slot cannot be dropped again or stay reachable); Drop for Vec drops exactly (ptr, len); the iterator/drain/box types have Drop impls; a Splice writes into its vector only after exhausting its Drain; RawVec and arena reset/drop reach no element destructor. Exact drop counts for arbitrary programs (the drop ledger) are not computed.',
+   ref='DESIGN.md section 4 C15'),
+ 'C17': dict(tech='must-fact gating via TermFlow, syntactic+resolved forwarding check over trait impls, call inventory, stale-pointer term comparison',
+   text='Decides: downcast reinterprets only under is::<T>() and the array conversion only under len(slice) == N, Err arms return the original box; all 33 forwarding trait methods on Box call the same-named method of the same trait with parameters in order (one tabled exception: Iterator::last via fold); Box::new_in allocates through the arena, no Box code calls an arena deallocation entry, Drop for Box is drop_in_place of the pointee; the pointer handed out by Vec -> slice/Box conversions is the buffer pointer at the moment the vector is forgotten. Value equality with std::boxed::Box for all programs is not decided.',
+   ref='DESIGN.md section 4 C17'),
 }
 
 NOT_YET = 'check not built yet (build in progress, see DESIGN.md section 9)'
